@@ -13,12 +13,15 @@ RULE = ("render: formats %[-+ 0#]*[w][.p]{d,f} (all 32 flag subsets x widths {-,
         "thorough: complete for .3m/.5m/.6m, dense sub-grids for .8m/.9m); each rendering is checked against the library's own "
         "validator (OneNumber/DefNumber), an independent INDI-convention parser, and str_to_num. parse: every string of the INDI "
         "number grammar built from sign x degree field x [sep minute field [sep second field]] with sep in ':' ';' blank, against "
-        "every format family. non-trivial = every case (each is a distinct (format,value) or (format,text) pair); "
+        "every format family. device layer: seeded 40-step histories on the four Number elements of one long-lived generated driver - values "
+        "stored by assignment, client newNumberVector, reset_value and a refreshing Read handler, rendered in between by "
+        "to_set_message / to_def_message / getProperties / a state change / an update caused by another element - every rendered text "
+        "must denote the element's current value to within the format's resolution. non-trivial = every case (each is a distinct (format,value) or (format,text) pair); "
         "distinct = hash of that pair")
 ASSUMPTIONS = ["tolerance = the format's resolution + a few ulp, so rounding and truncating renderers both pass",
                "non-canonical fields such as 1:60 are accepted; exponent notation and non-finite values are not demanded",
                "a leading '+' is not demanded of the parser (only what the library itself renders with the + flag)"]
-REQUIRED_EVENTS = ["renderings", "validator_checks", "parse_checks", "grid_points"]
+REQUIRED_EVENTS = ["renderings", "validator_checks", "parse_checks", "grid_points", "device_layer_renderings", "device_layer_histories"]
 
 SEXA = [3, 5, 6, 8, 9]
 
@@ -241,6 +244,10 @@ def run(ctx):
             ctx.count("grid_points")
             ctx.case_fast(("g", fmt, k))
         ctx.notes[f"grid {fmt}"] = f"k/{den} for k in [{lo},{hi}] step {stride}"
+    # the same through Number elements of a long-lived driver
+    for i in range(300 if not ctx.thorough else 20000):
+        if ctx.mine(i):
+            device_layer(ctx, i, 40)
     # parsing
     pf = ["%f", "%d", "%6.2f", "%.3m", "%.5m", "%.6m", "%.8m", "%10.9m"]
     for si, s in enumerate(grammar_strings()):
@@ -256,13 +263,114 @@ def run(ctx):
             ctx.sample({"text": s, "denotes": R.parse(s)})
 
 
+# ---- through the device layer: what a Number element puts into defNumberVector / setNumberVector --------------------------
+
+DEVICE_FORMATS = ["%.3m", "%.5m", "%.6m", "%9.6m", "%.8m", "%.9m", "%f", "%8.3f", "%.0f", "%d", "%+.2f", "%010.4f"]
+STORES = ["assign", "client-write", "reset_value", "read-handler-refresh", "assign-other-element"]
+RENDERS = ["to_set_message", "to_def_message", "getProperties", "state-change", "assign-other-element"]
+
+
+def device_layer(ctx, i, steps):
+    """One long-lived driver; every element takes a sequence of values through every way a driver or a client stores one, and is
+    rendered in between through every way a vector reaches the wire; each rendered text must denote the element's CURRENT value."""
+    from indi import message as M
+    from indi.message import one_parts
+    from indi.routing import Router
+    from vf import devmon
+    from vf.gen import drivers as D
+    rng = ctx.rng("device", i)
+    fmts = rng.sample(DEVICE_FORMATS, 4)
+    els = [{"attr": f"e{k}", "name": f"N{k}", "label": None, "default": None, "enabled": True, "format": f, "min": -1e9, "max": 1e9, "step": 0}
+           for k, f in enumerate(fmts)]
+    vspec = {"attr": "num", "kind": "Number", "name": "NUM", "label": None, "state": None, "perm": None, "timeout": None, "enabled": True, "elements": els}
+    spec = {"name": "DEV", "levels": [{"groups": [{"attr": "g", "name": "G", "enabled": True, "vectors": [vspec]}]}]}
+    hardware = {}
+
+    def leaf_hook(ns, defs):
+        from indi.device import events
+        from indi.device.events import on
+        sources = [defs["g"].vectors["num"].elements[f"e{k}"] for k in range(4)]
+
+        def refresh(self, event):
+            name = event.element.name
+            if name in hardware:
+                event.element.reset_value(hardware.pop(name))
+        ns["refresh"] = on(sources, events.Read)(refresh)
+
+    router = Router()
+    drv = D.build(spec, leaf_hook=leaf_hook)(router=router)
+    rec = devmon.RecClient()
+    router.register_client(rec)
+    vec = D.vector_of(drv, "g", "num")
+    elem = [D.element_in(vec, f"e{k}") for k in range(4)]
+    history = []
+
+    def judge(children, how):
+        for k, c in enumerate(children):
+            cur = elem[k]._value
+            ctx.count("device_layer_renderings")
+            if cur is None:
+                continue
+            ref = R.parse(str(c.value)) if c.value is not None else None
+            tol = R.tolerance(fmts[k], cur)
+            if ref is None or not abs(ref - cur) <= tol:
+                ctx.violate(f"element-rendering-denotes-other-value:{how}:after-{history[-1][0] if history else 'nothing'}",
+                            f"element N{k} (format {fmts[k]!r}) holds {cur!r} but {how} carries {c.value!r}", {"mode": "device", "i": i, "steps": steps},
+                            {"history": history[-8:]})
+                return False
+        return True
+
+    for step in range(steps):
+        k = rng.randrange(4)
+        v = rng.choice(special_values(rng, fmts[k])[:41]) if rng.random() < 0.4 else round(rng.uniform(-400, 400), rng.choice([0, 2, 4, 7]))
+        if "d" in fmts[k] and rng.random() < 0.5:
+            v = int(v)
+        store = rng.choice(STORES)
+        history.append((store, k, v))
+        ctx.seen("stores", store)
+        if store == "assign":
+            elem[k].value = v
+        elif store == "client-write":
+            router.process_message(M.NewNumberVector(device="DEV", name="NUM", children=(one_parts.OneNumber(name=f"N{k}", value=repr(float(v))),)), sender=rec)
+        elif store == "reset_value":
+            elem[k].reset_value(v)
+        elif store == "read-handler-refresh":
+            hardware[f"N{k}"] = v
+        else:
+            elem[(k + 1) % 4].value = v
+        for how in rng.sample(RENDERS, rng.choice([1, 2, 2, 3])):
+            ctx.seen("renders", how)
+            del rec.received[:]
+            if how == "to_set_message":
+                msgs = [vec.to_set_message()]
+            elif how == "to_def_message":
+                msgs = [vec.to_def_message()]
+            elif how == "getProperties":
+                router.process_message(M.GetProperties(version="1.7", device="DEV"), sender=rec)
+                msgs = [m for m in rec.received if type(m).__name__ == "DefNumberVector"]
+            elif how == "state-change":
+                vec.state_ = rng.choice(["Ok", "Busy", "Idle", "Alert"])
+                msgs = [m for m in rec.received if type(m).__name__ == "SetNumberVector"]
+            else:
+                elem[(k + 2) % 4].value = round(rng.uniform(-90, 90), 3)
+                msgs = [m for m in rec.received if type(m).__name__ == "SetNumberVector"]
+            history.append((how,))
+            for m in msgs:
+                if not judge(m.children, how):
+                    return
+    ctx.count("device_layer_histories")
+    ctx.case_fast(("device", i))
+
+
 def exhaustive(ctx):
     return False
 
 
 def replay(ctx, case):
     L = lib()
-    if case["mode"] == "render":
+    if case["mode"] == "device":
+        device_layer(ctx, case["i"], case["steps"])
+    elif case["mode"] == "render":
         check_render(ctx, case["fmt"], case["v"], L)
     else:
         check_parse(ctx, case["s"], case["fmt"], L)
